@@ -6,6 +6,7 @@
 #include <pika/latch.hpp>
 #include <pika/mutex.hpp>
 #include <pika/semaphore.hpp>
+#include <pika/threading_base/thread_helpers.hpp>
 #include <pika/synchronization/event.hpp>
 
 #include <memory>
@@ -40,7 +41,9 @@ namespace {
         M_TIMED_CV = 8,     // condition_variable::wait_for(pred) with a far deadline: the waiter yields (boosted) instead of suspending
         M_TIMED_SEM = 9,    // counting_semaphore::try_acquire_for with a far deadline
         M_RAW_ABORT = 10,   // raw suspend woken with restart reason "abort" first (the waiter survives it), then a normal wait
-        M_COUNT = 11
+        M_INTERRUPT = 11,   // a waiter blocked for good (raw suspend / semaphore / condition variable that nobody signals)
+                            // is woken by thread interruption (interrupt_thread: the wake-up with restart reason abort)
+        M_COUNT = 12
     };
 
     struct Pair
@@ -68,6 +71,7 @@ namespace {
         // additional waiters on the same latch / semaphore (one wake-up operation has to release them all)
         int co_waiters = 0, co_registered = 0, co_resumed = 0;
         bool abort_registered = false, aborted = false;    // M_RAW_ABORT
+        pika::threads::detail::thread_id_ref_type tid;       // M_INTERRUPT: keeps the waiter's thread object alive
     };
     std::vector<std::unique_ptr<Pair>> pairs;
 
@@ -126,6 +130,32 @@ namespace {
             p.registered = true;
             ev(1, idx, p.mech);
             p.ctx.suspend("C02 raw suspend after an abort");
+            resumed_check(p, idx, false);
+            break;
+        }
+        case M_INTERRUPT:
+        {
+            p.tid = pika::threads::detail::thread_id_ref_type(pika::threads::detail::get_self_id());
+            p.registered = true;
+            ev(1, idx, p.mech);
+            try
+            {
+                if (p.extra == 1)
+                    p.sem.acquire();
+                else if (p.extra == 2)
+                {
+                    std::unique_lock<pika::mutex> l(p.mtx);
+                    p.cv.wait(l);
+                }
+                else
+                    pika::execution::this_thread::detail::agent().suspend("C02 suspend, to be interrupted");
+                VH_CHECK(false, "C02.spurious_resume", "waiter %d: a wait that nobody signals returned normally", idx);
+            }
+            catch (pika::thread_interrupted const&)
+            {
+                probe("waiter_interrupted");
+            }
+            // (no further suspension in this task: the second step of interrupt_thread may still be under way)
             resumed_check(p, idx, false);
             break;
         }
@@ -275,6 +305,10 @@ namespace {
         case M_RAW_ABORT:
         case M_RAW:
             p.ctx.resume("C02 raw resume");
+            break;
+        case M_INTERRUPT:
+            pika::threads::detail::interrupt_thread(p.tid.noref());
+            p.tid = pika::threads::detail::thread_id_ref_type();    // (the runtime does not shut down while ids are held)
             break;
         case M_TIMED_CV:
         case M_CV:
